@@ -394,3 +394,144 @@ func JoinQuery(rt *rapid.T, db *model.DB, misaddress bool) Select {
 	}
 	return q
 }
+
+// ---------------------------------------------------------------- aggregates (C07)
+
+// AggTables draws the tables for aggregate queries: t0(g1 INT, g2 VARCHAR,
+// n INT nullable, v INT, w BIGINT) with grouping values chosen to collide when
+// printed and concatenated, and optionally t1(g1 INT, z INT) for joins.
+func AggTables(rt *rapid.T) []model.Stmt {
+	var out []model.Stmt
+	t0 := model.Stmt{Kind: "create", Table: "t0", Cols: []model.Col{
+		{Name: "g1", Type: model.TInt}, {Name: "g2", Type: model.TVarchar, Len: 16}, {Name: "n", Type: model.TInt},
+		{Name: "v", Type: model.TInt}, {Name: "w", Type: model.TBigInt}}}
+	t0.SQL = RenderStmt(Plain(), t0)
+	out = append(out, t0)
+	nrows := rapid.SampledFrom([]int{0, 1, 2, 3, 4, 5, 8, 12, 20, 40, 60}).Draw(rt, "nrows")
+	big := rapid.Bool().Draw(rt, "bigvals")
+	for i := 0; i < nrows; i++ {
+		row := []model.Val{
+			model.Int(rapid.SampledFrom([]int64{1, 2, 3, 12, 23, 123}).Draw(rt, "g1")),
+			model.Str(rapid.SampledFrom([]string{"1", "12", "2", "", "<nil>", "true", "23", "3"}).Draw(rt, "g2")),
+		}
+		if rapid.IntRange(0, 2).Draw(rt, "nnull") == 0 {
+			row = append(row, model.Null())
+		} else {
+			row = append(row, model.Int(int64(rapid.IntRange(0, 3).Draw(rt, "n"))))
+		}
+		if big {
+			row = append(row, model.Int(rapid.Int64Range(-2147483648, 2147483647).Draw(rt, "v")), model.Int(rapid.Int64Range(-1<<40, 1<<40).Draw(rt, "w")))
+		} else {
+			row = append(row, model.Int(int64(rapid.IntRange(0, 3).Draw(rt, "v"))), model.Int(int64(rapid.IntRange(-3, 9).Draw(rt, "w"))))
+		}
+		out = append(out, model.Stmt{Kind: "insert", Table: "t0", Rows: [][]model.Val{row}}) // direct values: NULL and negatives
+	}
+	if rapid.Bool().Draw(rt, "hast1") {
+		t1 := model.Stmt{Kind: "create", Table: "t1", Cols: []model.Col{{Name: "g1", Type: model.TInt}, {Name: "z", Type: model.TInt}}}
+		t1.SQL = RenderStmt(Plain(), t1)
+		out = append(out, t1)
+		for i := rapid.IntRange(0, 6).Draw(rt, "nrows1"); i > 0; i-- {
+			s := model.Stmt{Kind: "insert", Table: "t1", Rows: [][]model.Val{{
+				model.Int(rapid.SampledFrom([]int64{1, 2, 3, 12}).Draw(rt, "g1b")), model.Int(int64(rapid.IntRange(0, 5).Draw(rt, "z")))}}}
+			s.SQL = RenderStmt(Plain(), s)
+			out = append(out, s)
+		}
+	}
+	return out
+}
+
+// AggQuery draws an aggregate query whose grouping columns all appear in the
+// select list, referenced in GROUP BY by name, qualified name or alias.
+func AggQuery(rt *rapid.T, db *model.DB) Select {
+	q := Select{}
+	ref := TableRef{Name: "t0"}
+	if rapid.IntRange(0, 2).Draw(rt, "talias") == 0 {
+		ref.Alias = "x"
+	}
+	q.From = &ref
+	joined := db.Tables["t1"] != nil && rapid.IntRange(0, 2).Draw(rt, "join") == 0
+	if joined {
+		r2 := TableRef{Name: "t1"}
+		if rapid.Bool().Draw(rt, "talias2") {
+			r2.Alias = "y"
+		}
+		q.Joins = []Join{{Type: rapid.SampledFrom([]string{"inner", "inner", "left"}).Draw(rt, "jtype"), Table: r2,
+			On: &model.Cond{Or: [][]model.Cmp{{{L: model.Operand{Qual: ref.ID(), Col: "g1"}, Op: "=", R: model.Operand{Qual: r2.ID(), Col: "g1"}}}}}}}
+	}
+	needQual := func(name string) bool { return joined && name == "g1" }
+	colRef := func(name string) ColRef {
+		c := ColRef{Name: name}
+		if needQual(name) || rapid.IntRange(0, 2).Draw(rt, "qual") == 0 {
+			c.Qual = ref.ID()
+		}
+		return c
+	}
+	// grouping columns
+	ng := rapid.SampledFrom([]int{0, 0, 1, 1, 2, 2, 3}).Draw(rt, "ngroup")
+	gcols := rapid.Permutation([]string{"g1", "g2", "n"}).Draw(rt, "gperm")[:ng]
+	type item struct {
+		it  SelItem
+		grp bool
+	}
+	var items []item
+	aliases := []string{"p", "q", "r"}
+	for gi, g := range gcols {
+		c := colRef(g)
+		it := SelItem{Kind: "col", Col: &c}
+		if rapid.IntRange(0, 2).Draw(rt, "galias") == 0 {
+			it.Alias = aliases[gi]
+			it.UseAS = rapid.Bool().Draw(rt, "gas")
+		}
+		items = append(items, item{it, true})
+	}
+	na := rapid.IntRange(1, 3).Draw(rt, "naggr")
+	for i := 0; i < na; i++ {
+		it := SelItem{}
+		switch rapid.SampledFrom([]string{"count*", "countcol", "avg", "avg"}).Draw(rt, "aggr") {
+		case "count*":
+			it.Kind = "count"
+		case "countcol":
+			c := colRef(rapid.SampledFrom([]string{"n", "g2", "v"}).Draw(rt, "ccol"))
+			it.Kind, it.Col = "count", &c
+		default:
+			c := colRef(rapid.SampledFrom([]string{"v", "w", "v"}).Draw(rt, "acol"))
+			it.Kind, it.Col = "avg", &c
+		}
+		if rapid.IntRange(0, 3).Draw(rt, "aalias") == 0 {
+			it.Alias = fmt.Sprintf("agg%d", i)
+			it.UseAS = rapid.Bool().Draw(rt, "aas")
+		}
+		items = append(items, item{it, false})
+	}
+	// any select-list position for the aggregates
+	order := rapid.Permutation(intRange(len(items))).Draw(rt, "itemperm")
+	for _, i := range order {
+		q.Items = append(q.Items, items[i].it)
+		if items[i].grp {
+			it := items[i].it
+			var g ColRef
+			switch rapid.IntRange(0, 2).Draw(rt, "gref") {
+			case 0:
+				g = ColRef{Name: it.Col.Name} // by name
+			case 1:
+				g = *it.Col // exactly as selected (qualified if it was)
+			default:
+				if it.Alias != "" {
+					g = ColRef{Name: it.Alias}
+				} else {
+					g = ColRef{Name: it.Col.Name}
+				}
+			}
+			q.GroupBy = append(q.GroupBy, g)
+		}
+	}
+	if len(q.GroupBy) > 1 && rapid.Bool().Draw(rt, "gshuffle") {
+		q.GroupBy[0], q.GroupBy[len(q.GroupBy)-1] = q.GroupBy[len(q.GroupBy)-1], q.GroupBy[0]
+	}
+	if rapid.IntRange(0, 2).Draw(rt, "haswhere") == 0 {
+		v := model.Int(int64(rapid.SampledFrom([]int{0, 1, 2, 3, 12, 999999}).Draw(rt, "wv")))
+		q.Where = &model.Cond{Or: [][]model.Cmp{{{L: model.Operand{Qual: ref.ID(), Col: rapid.SampledFrom([]string{"g1", "v"}).Draw(rt, "wcol")},
+			Op: rapid.SampledFrom([]string{"=", "!=", "<", ">="}).Draw(rt, "wop"), R: model.Operand{Lit: &v}}}}}
+	}
+	return q
+}
